@@ -341,7 +341,61 @@ def full_range_failures(fb, paths, pos_den_only=False):
                 if kind == "Cast" and not ok and op and "->" in op:
                     # a narrowing `as` cast of a value that may not fit: no panic, the exact number silently becomes another one
                     failing.setdefault((fn, "Cast:" + op), (label, span, "Cast"))
+            # intervals do not relate operands to one another (a quotient to its divisor, a flag to the value it was computed
+            # from): what they report as possible is confirmed on boundary operands, where the same interpreter is exact
+            for key_ in [k_ for k_, v_ in failing.items() if v_[0] == label and len(v_) == 3 and k_[1] != "analysis"]:
+                failing[key_] = failing[key_] + (_witness(fb, f, args, key_, failing[key_][2]),)
     return failing
+
+
+_WVALS = None
+
+
+def _witness(fb, f, args, key, kind, cap=1500):
+    """operand values (taken from the ends of the ranges and small numbers) for which the operation named by `key` leaves its type
+    when the interval interpreter is run on those single values; None when none of the values tried does"""
+    import itertools
+    lo, hi = interval.I32
+    cand = [lo, hi, -1, 1, 2, 0, lo + 1, hi - 1, -2, 3, 46341, -46341, 65536, -65536, 7]
+    slots = []
+
+    def collect(v):
+        if isinstance(v, En):
+            for i, x in enumerate(v.fields):
+                if isinstance(x, IV):
+                    slots.append((v, i, x))
+                else:
+                    collect(x)
+    for a in args:
+        collect(a)
+    if not slots or len(slots) > 4:
+        return None
+    choices = [[c for c in cand if iv.lo <= c <= iv.hi] or [iv.lo] for (_, _, iv) in slots]
+    fn, op = key
+    tried = 0
+    saved = [(e, i, e.fields[i]) for (e, i, _) in slots]
+    try:
+        for combo in itertools.product(*choices):
+            tried += 1
+            if tried > cap:
+                return None
+            for (e, i, _), val in zip(slots, combo):
+                e.fields[i] = IV(val, val)
+            it = Interp(fb)
+            try:
+                it.run(f, args)
+            except RuntimeError:
+                continue
+            for (fn2, blk, kind2, op2, ok, span) in it.obligations:
+                if ok or fn2 != fn:
+                    continue
+                name2 = "Neg" if kind2 == "OverflowNeg" else (("Cast:" + op2) if kind2 == "Cast" else (op2 or kind2))
+                if name2 == op:
+                    return list(combo)
+        return None
+    finally:
+        for e, i, old_ in saved:
+            e.fields[i] = old_
 
 
 full_range_failures.visited = set()
@@ -526,6 +580,11 @@ def range_and_sign(ctx, fb, census=True):
     for (fn, op), info in sorted(fails.items()):
         label, span = info[0], info[1]
         kind = info[2] if len(info) > 2 else "?"
+        if len(info) > 3 and info[3] is None:
+            ctx.undecided("C09-never-wrong-exact", "%s/%s" % (_short(fn), op), "interval analysis cannot bound the exact i32 %s in %s "
+                          "(case %s), but none of the boundary operands tried makes it leave the i32 range: the operands are related "
+                          "in a way intervals do not express" % (op, _short(fn), label), mir.span_loc(span))
+            continue
         ctx.report("C09-never-wrong-exact", "%s/%s" % (_short(fn), op),
                    "exact i32 %s in %s can exceed the i32 range for some operands (case %s) and is a bare operator: it %s instead "
                    "of reporting an error or promoting" % (op, _short(fn), label,
@@ -536,6 +595,7 @@ def range_and_sign(ctx, fb, census=True):
 
 
 def _short(fn):
+    fn = fn.split("::{closure")[0]          # (an operation moved into a closure of the same function is the same site)
     if fn.startswith("<"):
         # <values::Number as std::ops::Add>::add -> Number::add
         return "Number::" + fn.rsplit("::", 1)[-1]
